@@ -583,8 +583,9 @@ func GenErrName(msg string) string {
 		return "mtaMissing"
 	case strings.Contains(msg, "cannot convert Reporting-MTA"):
 		return "mtaConv"
-	case strings.Contains(msg, "cannot convert Received-From-MTA"):
-		return "rcvdConv"
+	// (no case for "cannot convert Received-From-MTA": since the fix "a client HELO name that cannot
+	// be converted ..." the optional field is left out, it is not a refusal any more - such an
+	// error text would be an "other(...)" one: a report lost on complete input)
 	case strings.Contains(msg, "cannot convert X-Maddy-Sender"):
 		return "senderConv"
 	case strings.Contains(msg, "Final-Recipient is required"):
